@@ -500,6 +500,16 @@ def after_failure(ctx, dist):
                 cases.append("chainx\t%s\t%s\t%s" % (sh % sk, ",".join(map(str, ch)), hx(data[:sum(ch)])))
                 meta.append((sh, mode, sk, ch))
     outs = vlib.run_cases(h, cases)
+    # the same session on the per-call (small-step) model Io/Step.v: exact agreement of verdicts and sink contents
+    if ctx.get("driver"):
+        extra_shapes = ["plexall(plexall(buffer:2,malloc),plexany(faulty:1:0,file))", "plexany(plexall(buffer:3),plexall(faulty:0:0,malloc),file)", "plexall()", "plexany()",
+                        "plexany(faulty:-1:1,buffer:2)", "plexall(malloc,faulty:-1:1)", "buffer:4", "faulty:1:1"]
+        mcases = cases + ["chainx\t%s\t%s\t%s" % (sh_, ",".join(map(str, ch_)), hx(data[:sum(ch_)])) for sh_ in extra_shapes for ch_ in chunkings]
+        io_ = outs + vlib.run_cases(h, mcases[len(cases):])
+        for c_, oi, om in zip(mcases, io_, vlib.run_cases(ctx["driver"], mcases)):
+            if oi != om:
+                ctx.setdefault("step_disagreements", []).append({"case": c_, "implementation": oi[:300], "model": om[:300]})
+        dist["chainx sessions also run on the per-call model Io/Step.v"] = len(mcases)
     for c, o, (sh, mode, sk, ch) in zip(cases, outs, meta):
         if o.startswith("CRASH") or o.startswith("BUILD"):
             rep.violation("after-failure:crash", "crash / build failure: " + o[:160], {"case": c})
@@ -563,4 +573,8 @@ def correspond(ctx):
         exhaustive_subspaces=["all compositions of every length <= %d for b64enc/b64dec/2 plex shapes" % (9 if ctx["tier"] == "quick" else 12),
                               "fault at every downstream feed index 0..7 and at done for 10 shapes"])
     st["evaluations"] += ncomp
+    for d_ in ctx.get("step_disagreements", []):
+        st["disagreements"] += 1
+        st["first_disagreements"].append(d_)
+        ctx["rep"].violation("after-failure:model-differs", "a session that goes on after a refused feed: implementation and the per-call model (coq/Io/Step.v) differ", dict(d_))
     return st
